@@ -59,7 +59,13 @@ func (e *kvElection) heartbeatLoop(ctx context.Context) {
 				}
 			}
 
-			currentRev := e.revision.Load()
+			// The health check above can take a while: the term may have ended in
+			// the meantime and the revision of the successor's record may have
+			// been recorded, which must not be used to refresh our own payload.
+			currentRev, stillLeader := e.ownRevision()
+			if !stillLeader {
+				return
+			}
 
 			token := e.Token()
 			payload := leadershipPayload{
@@ -263,4 +269,14 @@ func (e *kvElection) handleHealthCheckFailure() {
 		)
 		onDemote()
 	}
+}
+
+// ownRevision returns the revision of this instance's record together with
+// whether the instance still leads. becomeLeader publishes a term's revision
+// and followers record observed revisions (recordObservedLeader) under the
+// election mutex, so a revision read here while leading is the term's own.
+func (e *kvElection) ownRevision() (uint64, bool) {
+	e.mu.RLock()
+	defer e.mu.RUnlock()
+	return e.revision.Load(), e.isLeader.Load()
 }
